@@ -13,7 +13,7 @@ class Gen5(M.Gen):
 
     def inner(self, depth):
         r = self.rng
-        k = r.randint(0, 16)
+        k = r.randint(0, 19)
         blk = lambda *ss: Code(*ss)
         # an operand expression that yields NO value: a unary operator on nil only warns and pushes nothing
         void = lambda: Un(r.choice(["str", "count"]), Var("_undef%d" % r.randint(1, 3)))
@@ -28,6 +28,20 @@ class Gen5(M.Gen):
                              Bin("call", N(1), short), Bin("catch", Un("try", short), blk(E(N(0))))])
         if k == 14:  # a binary / unary operator inside a called block that finds no operand in its own scope
             return Un("call", blk(E(r.choice([Bin("+", void(), void()), Bin("+", N(1), void()), Un("count", void())]))))
+        if k == 17:   # a try block left by a throw that crosses a scope, with an EMPTY handler: one value (nil), pending operands intact
+            thrower = Un("call", blk(E(N(2)), E(Un("throw", N(5)))))
+            return Bin("catch", Un("try", blk(E(Arr(N(1), thrower)) if r.random() < 0.5 else E(Bin("+", N(40), thrower)))), blk())
+        if k == 18:   # loops with an EMPTY body that go round more than once, used as an operand
+            n = r.randint(2, 4)
+            return r.choice([Bin("forEach", blk(), Arr(*[N(i) for i in range(n)])),
+                             Bin("do", Bin("to", Bin("from", Un("for", S("_q")), N(0)), N(n)), blk()),
+                             Bin("count", blk(), Arr(*[N(i) for i in range(n)])),
+                             Bin("apply", Arr(*[N(i) for i in range(n)]), blk())])
+        if k == 19:   # other empty blocks: then {}, exitWith {}, call {}, an empty except__ handler
+            return r.choice([Bin("then", Un("if", B(True)), blk()), Un("call", blk()), Bin("call", N(1), blk()),
+                             Un("call", blk(E(Bin("exitWith", Un("if", B(True)), blk())), E(N(5)))),
+                             Bin("except__", blk(E(Arr(N(1), Bin("select", Arr(), N(3))))), blk()),
+                             Bin("then", Un("if", B(False)), Bin("else", blk(E(N(1))), blk()))])
         if k in (15, 16):   # a while loop whose body ends in a value (the loop itself yields nil); k == 16: a statement of the condition is short
             # of an operand, so that a value left over from the body's last round would be taken for it
             lim = r.randint(1, 3)
